@@ -125,6 +125,63 @@ def well_formed(m, p):
     return True
 
 
+def probe_stream(ctx, dist):
+    import io
+    import mammoth
+    from mammoth.docx.xmlparser import element as X, text as XT
+    from .. import docx_builder as B, gen_xml, oracle_html as O
+    from . import c03
+    rng = ctx.rng
+    table = {"1": [False, False, True], "2": [True, True, False]}
+    for i in range(500 if ctx.thorough else 70):
+        sid, sname = rng.choice(c03.STYLES[:4])
+        lvl, nid = rng.choice([0, 1, 2]), rng.choice(["1", "2"])
+        target = {"kind": "p", "style_id": sid, "style_name": sname, "numbering": (str(lvl), table[nid][lvl])}
+        m = {"kind": "p", "style_id": sid if rng.random() < 0.6 else None,
+             "style_name": (rng.choice([("=", sname.swapcase()), ("^=", sname[:4])]) if rng.random() < 0.6 else None),
+             "list": (("ordered-list" if target["numbering"][1] else "unordered-list", lvl + 1) if rng.random() < 0.7 else None)}
+        other = [x for x in c03.STYLES[:4] if x[0] != sid][0]
+        lvl2 = (lvl + 1) % 3
+        nid2 = "2" if nid == "1" else "1"
+        variants = [("exact", sid, (lvl, nid)), ("other_style", other[0], (lvl, nid)), ("other_level", sid, (lvl2, nid)),
+                    ("other_list", sid, (lvl, nid2)), ("no_numbering", sid, None), ("no_style", None, (lvl, nid))]
+        paras, els = [], []
+        for name, vs, vn in variants:
+            ppr = ([X("w:pStyle", {"w:val": vs})] if vs else []) + \
+                  ([X("w:numPr", {}, [X("w:ilvl", {"w:val": str(vn[0])}), X("w:numId", {"w:val": vn[1]})])] if vn else [])
+            text = "%s%d" % (name, i)
+            paras.append(X("w:p", {}, ([X("w:pPr", {}, ppr)] if ppr else []) + [X("w:r", {}, [X("w:t", {}, [XT(text)])])]))
+            names = dict(c03.STYLES)
+            num = (str(vn[0]), table[vn[1]][vn[0]]) if vn else (("0", True) if vs == "ListParagraph" else None)
+            els.append({"kind": "p", "style_id": vs, "style_name": names.get(vs), "numbering": num, "text": text})
+        pkg = gen_xml.Package()
+        pkg.styles = [X("w:style", {"w:type": "paragraph", "w:styleId": s_}, [X("w:name", {"w:val": n_})] if n_ else []) for s_, n_ in c03.STYLES]
+        pkg.numbering = gen_xml.XGen(rng).numbering_part()
+        pkg.body = paras
+        line = G.print_matcher(m) + " => div.hit:fresh"
+        data, _ = B.build(pkg)
+        try:
+            res = mammoth.convert_to_html(io.BytesIO(data), style_map=line, include_default_style_map=False)
+            forest = O.strict_parse(res.value)
+            bad = None
+            for e in els:
+                chain = c03.find_marker(forest, e["text"]) or ()
+                hit = any(c == "hit" for _, c in chain)
+                if hit != c03.spec_matches(m, e):
+                    bad = "the mapping %r %s the paragraph %s (style %s, numbering %s)" % (line, "was applied to" if hit else "was not applied to",
+                                                                                       e["text"], e["style_id"], e["numbering"])
+                    break
+        except Exception as ex:
+            bad, res = "conversion raised %r" % ex, None
+        ctx.count()
+        dist["probe_documents"] = dist.get("probe_documents", 0) + 1
+        if bad:
+            ctx.violation("oracle", bad, {"api": "mammoth.convert_to_html", "style_map": line, "package": gen_xml.pkg_json(pkg),
+                                          "observed": None if res is None else res.value[:500]}, True)
+            if len(ctx.violations) > 10:
+                break
+
+
 def run(ctx):
     ctx.build()
     rng = ctx.rng
@@ -196,6 +253,9 @@ def run(ctx):
         if got != exp or msgs:
             ctx.violation("oracle", "a style map of well-formed lines (with blank and comment lines between them) was not read as the list of its mappings",
                           {"api": "options.read_options", "style_map": sm, "observed": got if isinstance(got, str) else got[:8], "expected": exp, "messages": msgs[:4]}, True)
+    # the mappings at work: a probe document holding one paragraph the matcher describes and decoys that differ from it in exactly
+    # one feature; the mapped element must land on precisely the paragraphs the matcher describes
+    probe_stream(ctx, dist)
     # cases whose printed text ends in whitespace (empty path) are compared on the stripped text by both sides
     keep = [j for j, mt in enumerate(metas) if mt["text"].strip() == mt["text"]]
     bad = ctx.coq_eval("c06", HEADER, [terms[j] for j in keep], CASE_TYPE, "chk", shard=60)
